@@ -1,4 +1,4 @@
-package main
+package hx
 
 // pkt.go — the packet text format shared with ocaml/conv.ml (see there).
 
@@ -11,14 +11,14 @@ import (
 	"github.com/256dpi/gomqtt/packet"
 )
 
-func hx(b []byte) string {
+func Hx(b []byte) string {
 	if len(b) == 0 {
 		return "-"
 	}
 	return hex.EncodeToString(b)
 }
 
-func unhx(s string) []byte {
+func Unhx(s string) []byte {
 	if s == "-" || s == "" {
 		return nil
 	}
@@ -29,18 +29,18 @@ func unhx(s string) []byte {
 	return b
 }
 
-func b01(b bool) string {
+func B01(b bool) string {
 	if b {
 		return "1"
 	}
 	return "0"
 }
 
-func msgText(m *packet.Message) string {
-	return fmt.Sprintf("%s,%s,%d,%s", hx([]byte(m.Topic)), hx(m.Payload), m.QOS, b01(m.Retain))
+func MsgText(m *packet.Message) string {
+	return fmt.Sprintf("%s,%s,%d,%s", Hx([]byte(m.Topic)), Hx(m.Payload), m.QOS, B01(m.Retain))
 }
 
-func pktText(p packet.Generic) string {
+func PktText(p packet.Generic) string {
 	if p == nil {
 		return "nil"
 	}
@@ -48,15 +48,15 @@ func pktText(p packet.Generic) string {
 	case *packet.Connect:
 		w := "-"
 		if v.Will != nil {
-			w = msgText(v.Will)
+			w = MsgText(v.Will)
 		}
-		return fmt.Sprintf("connect:%s:%d:%s:%s:%s:%s:%d", hx([]byte(v.ClientID)), v.KeepAlive,
-			hx([]byte(v.Username)), hx([]byte(v.Password)), b01(v.CleanSession), w, v.Version)
+		return fmt.Sprintf("connect:%s:%d:%s:%s:%s:%s:%d", Hx([]byte(v.ClientID)), v.KeepAlive,
+			Hx([]byte(v.Username)), Hx([]byte(v.Password)), B01(v.CleanSession), w, v.Version)
 	case *packet.Connack:
-		return fmt.Sprintf("connack:%s:%d", b01(v.SessionPresent), v.ReturnCode)
+		return fmt.Sprintf("connack:%s:%d", B01(v.SessionPresent), v.ReturnCode)
 	case *packet.Publish:
-		return fmt.Sprintf("publish:%s:%s:%s:%d:%s:%d", b01(v.Dup), hx([]byte(v.Message.Topic)),
-			hx(v.Message.Payload), v.Message.QOS, b01(v.Message.Retain), v.ID)
+		return fmt.Sprintf("publish:%s:%s:%s:%d:%s:%d", B01(v.Dup), Hx([]byte(v.Message.Topic)),
+			Hx(v.Message.Payload), v.Message.QOS, B01(v.Message.Retain), v.ID)
 	case *packet.Puback:
 		return fmt.Sprintf("puback:%d", v.ID)
 	case *packet.Pubrec:
@@ -70,7 +70,7 @@ func pktText(p packet.Generic) string {
 	case *packet.Subscribe:
 		var parts []string
 		for _, s := range v.Subscriptions {
-			parts = append(parts, fmt.Sprintf("%s,%d", hx([]byte(s.Topic)), s.QOS))
+			parts = append(parts, fmt.Sprintf("%s,%d", Hx([]byte(s.Topic)), s.QOS))
 		}
 		return fmt.Sprintf("subscribe:%d:%s", v.ID, strings.Join(parts, ";"))
 	case *packet.Suback:
@@ -82,7 +82,7 @@ func pktText(p packet.Generic) string {
 	case *packet.Unsubscribe:
 		var parts []string
 		for _, t := range v.Topics {
-			parts = append(parts, hx([]byte(t)))
+			parts = append(parts, Hx([]byte(t)))
 		}
 		return fmt.Sprintf("unsubscribe:%d:%s", v.ID, strings.Join(parts, ","))
 	case *packet.Pingreq:
@@ -95,7 +95,7 @@ func pktText(p packet.Generic) string {
 	panic(fmt.Sprintf("unknown packet %T", p))
 }
 
-func atoi(s string) int {
+func Atoi(s string) int {
 	n, err := strconv.Atoi(s)
 	if err != nil {
 		panic(err)
@@ -103,60 +103,60 @@ func atoi(s string) int {
 	return n
 }
 
-func msgParse(s string) *packet.Message {
+func MsgParse(s string) *packet.Message {
 	f := strings.Split(s, ",")
-	return &packet.Message{Topic: string(unhx(f[0])), Payload: unhx(f[1]), QOS: packet.QOS(atoi(f[2])), Retain: f[3] == "1"}
+	return &packet.Message{Topic: string(Unhx(f[0])), Payload: Unhx(f[1]), QOS: packet.QOS(Atoi(f[2])), Retain: f[3] == "1"}
 }
 
-func pktParse(s string) packet.Generic {
+func PktParse(s string) packet.Generic {
 	f := strings.Split(s, ":")
 	switch f[0] {
 	case "nil":
 		return nil
 	case "connect":
-		c := &packet.Connect{ClientID: string(unhx(f[1])), KeepAlive: uint16(atoi(f[2])), Username: string(unhx(f[3])),
-			Password: string(unhx(f[4])), CleanSession: f[5] == "1", Version: byte(atoi(f[7]))}
+		c := &packet.Connect{ClientID: string(Unhx(f[1])), KeepAlive: uint16(Atoi(f[2])), Username: string(Unhx(f[3])),
+			Password: string(Unhx(f[4])), CleanSession: f[5] == "1", Version: byte(Atoi(f[7]))}
 		if f[6] != "-" {
-			c.Will = msgParse(f[6])
+			c.Will = MsgParse(f[6])
 		}
 		return c
 	case "connack":
-		return &packet.Connack{SessionPresent: f[1] == "1", ReturnCode: packet.ConnackCode(atoi(f[2]))}
+		return &packet.Connack{SessionPresent: f[1] == "1", ReturnCode: packet.ConnackCode(Atoi(f[2]))}
 	case "publish":
-		return &packet.Publish{Dup: f[1] == "1", Message: packet.Message{Topic: string(unhx(f[2])), Payload: unhx(f[3]),
-			QOS: packet.QOS(atoi(f[4])), Retain: f[5] == "1"}, ID: packet.ID(atoi(f[6]))}
+		return &packet.Publish{Dup: f[1] == "1", Message: packet.Message{Topic: string(Unhx(f[2])), Payload: Unhx(f[3]),
+			QOS: packet.QOS(Atoi(f[4])), Retain: f[5] == "1"}, ID: packet.ID(Atoi(f[6]))}
 	case "puback":
-		return &packet.Puback{ID: packet.ID(atoi(f[1]))}
+		return &packet.Puback{ID: packet.ID(Atoi(f[1]))}
 	case "pubrec":
-		return &packet.Pubrec{ID: packet.ID(atoi(f[1]))}
+		return &packet.Pubrec{ID: packet.ID(Atoi(f[1]))}
 	case "pubrel":
-		return &packet.Pubrel{ID: packet.ID(atoi(f[1]))}
+		return &packet.Pubrel{ID: packet.ID(Atoi(f[1]))}
 	case "pubcomp":
-		return &packet.Pubcomp{ID: packet.ID(atoi(f[1]))}
+		return &packet.Pubcomp{ID: packet.ID(Atoi(f[1]))}
 	case "unsuback":
-		return &packet.Unsuback{ID: packet.ID(atoi(f[1]))}
+		return &packet.Unsuback{ID: packet.ID(Atoi(f[1]))}
 	case "subscribe":
-		p := &packet.Subscribe{ID: packet.ID(atoi(f[1]))}
+		p := &packet.Subscribe{ID: packet.ID(Atoi(f[1]))}
 		if f[2] != "" {
 			for _, x := range strings.Split(f[2], ";") {
 				y := strings.Split(x, ",")
-				p.Subscriptions = append(p.Subscriptions, packet.Subscription{Topic: string(unhx(y[0])), QOS: packet.QOS(atoi(y[1]))})
+				p.Subscriptions = append(p.Subscriptions, packet.Subscription{Topic: string(Unhx(y[0])), QOS: packet.QOS(Atoi(y[1]))})
 			}
 		}
 		return p
 	case "suback":
-		p := &packet.Suback{ID: packet.ID(atoi(f[1]))}
+		p := &packet.Suback{ID: packet.ID(Atoi(f[1]))}
 		if f[2] != "" {
 			for _, x := range strings.Split(f[2], ",") {
-				p.ReturnCodes = append(p.ReturnCodes, packet.QOS(atoi(x)))
+				p.ReturnCodes = append(p.ReturnCodes, packet.QOS(Atoi(x)))
 			}
 		}
 		return p
 	case "unsubscribe":
-		p := &packet.Unsubscribe{ID: packet.ID(atoi(f[1]))}
+		p := &packet.Unsubscribe{ID: packet.ID(Atoi(f[1]))}
 		if f[2] != "" {
 			for _, x := range strings.Split(f[2], ",") {
-				p.Topics = append(p.Topics, string(unhx(x)))
+				p.Topics = append(p.Topics, string(Unhx(x)))
 			}
 		}
 		return p
